@@ -44,9 +44,10 @@ def tree_hash():
         with open(p, "rb") as fh:
             h.update(fh.read())
     try:
-        import numba
+        # NOT "import numba": numba reads NUMBA_CACHE_DIR when it is first imported
+        from importlib.metadata import version
 
-        h.update(numba.__version__.encode())
+        h.update(version("numba").encode())
     except Exception:
         pass
     h.update(sys.version.encode())
@@ -79,6 +80,8 @@ def setup_env():
         for old in olds[:-2]:
             shutil.rmtree(old, ignore_errors=True)
         os.makedirs(cache, exist_ok=True)
+    if "numba" in sys.modules and os.environ.get("NUMBA_CACHE_DIR") != cache:
+        raise HarnessError("numba was imported before the cache directory was configured")
     os.environ["NUMBA_CACHE_DIR"] = cache
     os.environ["VF_ENV_READY"] = "1"
     os.environ.setdefault("PYTHONHASHSEED", "0")
